@@ -356,8 +356,10 @@ def guard_like(e: ast.AST) -> bool:
     if isinstance(e, ast.Call):
         d = dotted(e.func) or ''
         last = d.split('.')[-1]
-        if last in ('type', 'len', 'isinstance', 'getattr', 'hasattr', 'is_task', 'is_task_type', 'bool', 'get', 'fullmatch', 'match',
-                    'startswith', 'endswith', 'max', 'min', 'cast') and not any(kw.arg is None for kw in e.keywords):
+        queryish = last.endswith('_count') or last.startswith(('is_', 'has_', 'use_'))
+        if (queryish or last in ('type', 'len', 'isinstance', 'getattr', 'hasattr', 'is_task', 'is_task_type', 'bool', 'get', 'fullmatch',
+                                 'match', 'startswith', 'endswith', 'max', 'min', 'cast')) \
+                and not any(kw.arg is None for kw in e.keywords):
             base_ok = guard_like(e.func.value) if isinstance(e.func, ast.Attribute) else True
             return base_ok and all(guard_like(a) for a in e.args) and all(guard_like(k.value) for k in e.keywords)
         return False
